@@ -263,8 +263,8 @@ int vf_run_case(Src &s, Report &r) {
 				st.t += 1 / 25.0;
 			}
 		} else if (what == 9 && (l25_kind = s.u8()) >= 64) {	// a Level 2.5 neighbourhood, a few packets per frame: MOT + POP + DRCS with random content, or a consistent object graph
-			std::vector<tx::Packet> pk; unsigned l25_page = l25_kind >= 128 ? l25::gen_l25(s, pk, &st.recent) : l25::gen_objgraph(s, pk, &st.recent);
-			if (l25_kind < 128) r.cls("level-2.5-object-graph");
+			std::vector<tx::Packet> pk; unsigned l25_page = l25_kind >= 128 ? l25::gen_l25(s, pk, &st.recent) : l25_kind >= 96 ? l25::gen_objgraph(s, pk, &st.recent) : l25::gen_top(s, pk, &st.recent);
+			if (l25_kind < 128) r.cls(l25_kind >= 96 ? "level-2.5-object-graph" : "top-neighbourhood");
 			size_t i = 0;
 			while (i < pk.size()) {
 				std::vector<vbi_sliced> f2; unsigned n = 1 + s.pick(12);
@@ -274,6 +274,11 @@ int vf_run_case(Src &s, Report &r) {
 				if (periodic) for (auto &x : f2) cycle.push_back(x);
 			}
 			r.cls("level-2.5-neighbourhood");
+			if (l25_kind >= 64 && l25_kind < 96) {	// TOP: the index page 900 (every subpage until it is empty), page titles
+				for (int sub = 0; sub < 4; ++sub) { vbi_page pg; if (vbi_fetch_vt_page(st.dec, &pg, 0x900, sub, VBI_WST_LEVEL_2p5, 25, 1)) { st.read_ok = true; vbi_unref_page(&pg); } }
+				char title[64]; vbi_page_title(st.dec, (int) l25_page, 0, title);
+				if (!st.recent.empty()) vbi_page_title(st.dec, (int) st.recent[s.pick((uint32_t) st.recent.size())], 0, title);
+			}
 			for (int lv : {VBI_WST_LEVEL_2p5, VBI_WST_LEVEL_3p5}) if (s.chance(2, 3)) { vbi_page pg; if (vbi_fetch_vt_page(st.dec, &pg, (vbi_pgno) l25_page, VBI_ANY_SUBNO, (vbi_wst_level) lv, 25, 1)) {
 				st.read_ok = true;
 				for (int i = 0; i < pg.rows * pg.columns; ++i) if (pg.text[i].foreground >= 40 || pg.text[i].background >= 40) { vbi_unref_page(&pg); vbi_decoder_delete(st.dec); return r.fail("C01:fetched-page-colour-index-out-of-range", "page %x level %d row %d column %d: foreground %u background %u unicode %04x size %u, the colour map has 40 entries", l25_page, lv, i / pg.columns, i % pg.columns, pg.text[i].foreground, pg.text[i].background, pg.text[i].unicode, pg.text[i].size); }
